@@ -61,7 +61,31 @@ def agree(case, impl, model):
 
 
 def classify(case, impl, model):
-    return 'parser-panics' if 'panic' in impl else 'mismatch'
+    if 'panic' in impl:
+        return 'parser-panics'
+    try:
+        c = sx.parse(case)
+        line = T.unhex(c[2]) if c[0] == 'parse' else (T.unhex(c[3]) if c[0] == 'read' else b'')
+        if T.line_in_lexical_class(line):
+            # every point where the two outputs differ must be "model: invalid start/end/score, implementation: Ok"
+            a, b = sx.parse(impl), sx.parse(model)
+            def items(o):
+                out = []
+                for x in o[1:]:
+                    if isinstance(x, list) and x and x[0] == 'items':
+                        out += x[1:]
+                    else:
+                        out.append(x)
+                return out
+            ia, ib = items(a), items(b)
+            if len(ia) == len(ib):
+                diffs = [(x, y) for x, y in zip(ia, ib) if x != y]
+                if diffs and all(isinstance(y, list) and y[0] == 'err' and y[1] in ('invalid-start', 'invalid-end', 'invalid-score')
+                                 and isinstance(x, list) and x[0] == 'ok' for x, y in diffs):
+                    return 'lexical-overflow-undetected'
+    except Exception:
+        pass
+    return 'mismatch'
 
 
 def explain(case, impl, model):
